@@ -85,6 +85,11 @@ func (r *RingBuffer) Pull() (any, bool) {
 	for {
 		r.mutex.Lock()
 
+		if r.closed {
+			r.mutex.Unlock()
+			return nil, false
+		}
+
 		data := r.buffer[r.readIndex]
 
 		if data != nil {
@@ -92,11 +97,6 @@ func (r *RingBuffer) Pull() (any, bool) {
 			r.readIndex = (r.readIndex + 1) % r.size
 			r.mutex.Unlock()
 			return data, true
-		}
-
-		if r.closed {
-			r.mutex.Unlock()
-			return nil, false
 		}
 
 		r.cond.Wait()
